@@ -132,6 +132,18 @@ def _work(units):
             ("inf", dict(weights=[float("inf")] + [1] * (n - 1)), "ValueError"),
             ("nan", dict(weights=[float("nan")] + [1] * (n - 1)), "ValueError"),
             ("both", dict(weights=ws, cum_weights=cum), "TypeError"),
+            # "given" means `is not None`, as in random.choices: an empty sequence is still a given argument
+            ("both, weights empty list", dict(weights=[], cum_weights=cum), "TypeError"),
+            ("both, weights empty tuple", dict(weights=(), cum_weights=cum), "TypeError"),
+            ("both, cum empty", dict(weights=ws, cum_weights=[]), "TypeError"),
+            ("both empty", dict(weights=[], cum_weights=[]), "TypeError"),
+            ("both, weights zero", dict(weights=[0] * n, cum_weights=cum), "TypeError"),
+            ("empty weights", dict(weights=[]), "ValueError"),
+            ("empty cum", dict(cum_weights=[]), "ValueError"),
+            ("overflowing total", dict(weights=[1e308, 1e308] + [1] * (n - 2)), "ValueError" if n >= 2 else None),
+            ("cum all-zero", dict(cum_weights=[0] * n), "ValueError"),
+            ("cum ends negative", dict(cum_weights=[-1.0] * n), "ValueError"),
+            ("cum ends inf", dict(cum_weights=[1.0] * (n - 1) + [float("inf")]), "ValueError"),
         ]
         for tag, kw, want in bad:
             if want is None:
@@ -182,6 +194,25 @@ ODD = [[1e16, 1.0, -1e16], [-1e16, 1.0, 1e16, 1.0, 1.0], [1e308, 1e308], [0.1] *
        [1e16, 1.0, 1.0, 1.0], [0.1, 0.2, 0.3, -0.6, 1e-17], [float(2**53), 1.0, 1.0], [-1.0, 2.0], [2.0, -1.0], [1e-9] * 64, [1e9, 1e-9] * 8, [0, 0, 0, 1e-300]]
 
 
+def extreme_vectors():
+    """well-formed vectors whose total is positive and finite but tiny or huge (all partial sums in the normal range of a
+    double, so the partition is as exact as anywhere else)"""
+    from decimal import Decimal
+
+    def d(x):
+        t = format(Decimal(x), "f")
+        return t if "." in t else t + ".0"
+
+    out = []
+    for scale in ("1e-17", "1e-40", "1e-150", "1e-300", "2.5e-307", "1e30", "1e150", "1e300", "2e307"):
+        for shape in ((1,), (1, 3), (1, 1, 2), (0, 1, 1), (3, 0, 1, 4)):
+            out.append([d(Decimal(scale) * k) if k else "0" for k in shape])
+    out.append([d("1e-300")] * 64)
+    out.append([d("1e-17"), d("3e-17")])
+    out.append([d("1e300")] * 64)
+    return out
+
+
 def _odd_work(units):
     acc = progcheck.Acc()
     fn = impl.binning.deterministic_choice
@@ -216,7 +247,7 @@ def run(res, tier):
         v["interpreter_flags"] = ["-OO"]
     r["outcomes"] = ["-OO:" + o for o in r["outcomes"]]
     res.merge_worker(r)
-    vs = list(ew.small_vectors(3 if tier == "quick" else 4)) + ew.families() + [["1"] * n for n in range(1, 65)]
+    vs = list(ew.small_vectors(3 if tier == "quick" else 4)) + ew.families() + [["1"] * n for n in range(1, 65)] + extreme_vectors()
     units = [(v, kind) for v in vs for kind in (("list", "tuple") if len(v) <= 3 or len(v) in (8, 64) else ("list",))]
     for w in pmap(_work, permuted(units, "c16"), chunk=16):
         res.merge_worker(w)
